@@ -1,5 +1,950 @@
 import SradModel.Model.EonSpec
 
 namespace Srad.Eon.P20
+open Srad.Eon
+
+/-! ### generalities -/
+
+theorem mem_of_getElem? {α} {l : List α} {k : Nat} {r : α} (h : l[k]? = some r) : r ∈ l :=
+  List.mem_of_getElem? h
+
+@[simp] theorem handOver_calls (s : St) (c : Call) (dec : Dec) :
+    (handOver s c dec).1.calls = s.calls ++ [{ c with res := (match (if c.isTry && dec == .park then Dec.rej else dec) with | .acc => some true | .rej => some false | .park => none), gOnline := s.online, gBirthed := s.birthed }] := rfl
+
+@[simp] theorem handOver_id (s : St) (c : Call) (dec : Dec) : (handOver s c dec).2.1 = s.calls.length := rfl
+
+@[simp] theorem handOver_obs (s : St) (c : Call) (dec : Dec) :
+    (handOver s c dec).2.2 = .call s.calls.length c.kind c.dev c.seq c.bd c.isTry (if c.isTry && dec == .park then Dec.rej else dec) := rfl
+
+theorem handOver_st (s : St) (c : Call) (dec : Dec) :
+    (handOver s c dec).1 = { s with calls := (handOver s c dec).1.calls } := rfl
+
+theorem callRes_handOver (s : St) (c : Call) (dec : Dec) :
+    callRes (handOver s c dec).1 (handOver s c dec).2.1 =
+      (match (if c.isTry && dec == .park then Dec.rej else dec) with | .acc => some true | .rej => some false | .park => none) := by
+  simp [callRes]
+
+set_option linter.unusedSimpArgs false
+
+/-! ### step-level facts about user calls -/
+
+theorem find_setUCall (l : List UCall) (j : Nat) (u u' : UCall) (h : l.find? (·.j == j) = some u) (hj : u'.j = j) :
+    (setUCall u' l).find? (·.j == j) = some u' := by
+  induction l with
+  | nil => simp at h
+  | cons v t ih =>
+    simp only [List.find?_cons] at h
+    simp only [setUCall]
+    split at h
+    · rename_i hv
+      simp at hv h
+      simp [hv, hj]
+    · rename_i hv
+      simp at hv
+      have : ¬ (v.j = u'.j) := by omega
+      simp [this, hv, ih h]
+
+theorem nextSeqIn_ok {s : St} {req : Option Nat} {s1 : St} {n : Nat} (h : nextSeqIn s req = .ok (s1, n)) :
+    s1 = { s with seq := n } ∧ s.online = true ∧ s.birthed = true := by
+  unfold nextSeqIn at h
+  cases ho : s.online <;> cases hb : s.birthed <;> simp [ho, hb] at h
+  cases req with
+  | none => simp at h; obtain ⟨rfl, rfl⟩ := h; simp [← ho, ← hb]
+  | some e =>
+    simp at h
+    split at h
+    · simp at h; obtain ⟨rfl, rfl⟩ := h; simp [← ho, ← hb]
+    · simp at h
+
+theorem nextSeqIn_offline {s : St} {req : Option Nat} (h : s.online = false) : nextSeqIn s req = .error .offline := by
+  simp [nextSeqIn, h]
+
+theorem try_publish_returns_at_once (s : St) (j : Nat) (t : PubTarget) (n : Nat) (dec : Dec)
+    (k : Nat) (s' : St) (o : List Obs)
+    (hu : s.ucalls.find? (·.j == j) = some { j := j, kind := .pub t true n, pc := .start })
+    (h : (step s (.user j) dec)[k]? = some (s', o)) :
+    ∃ r, o.getLast? = some (.ures j r) ∧ (s'.ucalls.find? (·.j == j)).map (·.pc) = some .done := by
+  replace h := mem_of_getElem? h
+  simp only [step, stepUser, hu] at h
+  split at h
+  · simp at h
+    obtain ⟨rfl, rfl⟩ := h
+    simp [find_setUCall _ _ _ _ hu]
+  · split at h
+    · simp at h
+      obtain ⟨rfl, rfl⟩ := h
+      simp [find_setUCall _ _ _ _ hu]
+    · rename_i s1 k1 fl hg
+      have hs1 : s1.ucalls = s.ucalls := by
+        cases t
+        · simp only [nextSeq] at hg
+          cases hn : nextSeqIn s none with
+          | error e => simp [hn, Except.map] at hg
+          | ok v =>
+            simp [hn, Except.map] at hg
+            have := nextSeqIn_ok hn
+            grind
+        · simp only at hg
+          split at hg
+          · split at hg
+            · simp at hg
+            · rename_i x _ _
+              cases hn : nextSeqIn s (some x.epoch) with
+              | error e => simp [hn, Except.map] at hg
+              | ok v =>
+                simp [hn, Except.map] at hg
+                have := nextSeqIn_ok hn
+                grind
+          · simp at hg
+      cases t <;> cases dec <;> simp [handOver, callRes] at h <;> obtain ⟨rfl, rfl⟩ := h <;>
+        simp [hs1, find_setUCall _ _ _ _ hu]
+
+theorem cancel_ndeath (s : St) (j : Nat) (dec : Dec) (k : Nat) (s' : St) (o : List Obs)
+    (hu : s.ucalls.find? (·.j == j) = some { j := j, kind := .cancel, pc := .start })
+    (h : (step s (.user j) dec)[k]? = some (s', o)) :
+    (s.running = true → ∃ dc, o = [.call s.calls.length .ndeath none none (some s.bdseq) true dc] ∧
+        s'.stopping = true) ∧
+    (s.running = false → o = [.ures j .cancelled] ∧ s'.calls = s.calls) := by
+  replace h := mem_of_getElem? h
+  simp [step, stepUser, hu, handOver] at h
+  split at h
+  · simp at h
+    obtain ⟨rfl, rfl⟩ := h
+    simp_all
+  · simp at h
+    obtain ⟨rfl, rfl⟩ := h
+    simp_all
+theorem cancel_disconnect (s : St) (j : Nat) (dec : Dec) (k : Nat) (s' : St) (o : List Obs)
+    (hu : s.ucalls.find? (·.j == j) = some { j := j, kind := .cancel, pc := .cancelDisc })
+    (h : (step s (.user j) dec)[k]? = some (s', o)) :
+    ∃ dc, o = [.call s.calls.length .disconnect none none none true dc, .ures j .cancelled] := by
+  replace h := mem_of_getElem? h
+  simp [step, stepUser, hu, handOver] at h
+  simp [h]
+
+/-! ### `tryOk` -/
+
+theorem tryOk_append (a b : List Obs) : tryOk (a ++ b) = (tryOk a && tryOk b) := by
+  induction a with
+  | nil => simp [tryOk]
+  | cons x t ih => cases x <;> simp [tryOk, ih, Bool.and_assoc]
+
+theorem noCalls_append (a b : List Obs) : noCalls (a ++ b) = (noCalls a && noCalls b) := by
+  induction a with
+  | nil => simp [noCalls]
+  | cons x t ih => cases x <;> simp [noCalls, ih]
+
+theorem tryOk_of_noCalls {a : List Obs} (h : noCalls a = true) : tryOk a = true := by
+  induction a with
+  | nil => simp [tryOk]
+  | cons x t ih => cases x <;> simp_all [tryOk, noCalls]
+
+theorem stepLoop_noCalls {s : St} {r : St × List Obs} (h : r ∈ stepLoop s) : noCalls r.2 = true := by
+  unfold stepLoop at h
+  repeat' split at h
+  all_goals (try simp at h)
+  all_goals (try (rcases h with h | h))
+  all_goals (try subst h)
+  all_goals (try rfl)
+
+theorem stepLoopTimeout_noCalls {s : St} {r : St × List Obs} (h : r ∈ stepLoopTimeout s) : noCalls r.2 = true := by
+  unfold stepLoopTimeout at h
+  repeat' split at h
+  all_goals (try simp at h)
+  all_goals (try subst h)
+  all_goals (try rfl)
+
+theorem tryOk_stepNode {s : St} {dec : Dec} {r : St × List Obs} (h : r ∈ stepNode s dec) : tryOk r.2 = true := by
+  simp only [stepNode, nodeBirthStart, handOver, callRes] at h
+  repeat' split at h
+  all_goals (try simp at h)
+  all_goals (try subst h)
+  all_goals (try rfl)
+
+theorem tryOk_stepDev {s : St} {u : Nat} {dec : Dec} {r : St × List Obs} (h : r ∈ stepDev s u dec) : tryOk r.2 = true := by
+  simp only [stepDev, devBirth, devDeath, handOver, callRes] at h
+  repeat' split at h
+  all_goals (try simp at h)
+  all_goals (try subst h)
+  all_goals (try rfl)
+
+theorem tryOk_stepUser {s : St} {u : Nat} {dec : Dec} {r : St × List Obs} (h : r ∈ stepUser s u dec) : tryOk r.2 = true := by
+  simp only [stepUser, handOver, callRes] at h
+  repeat' split at h
+  all_goals (try simp at h)
+  all_goals (try subst h)
+  all_goals (try rfl)
+  all_goals (simp_all [tryOk])
+
+/-! ### lifting over executions -/
+
+theorem applyStim_noCalls (s : St) (x : Stim) : noCalls (applyStim s x).2 = true := by
+  cases x <;> simp only [applyStim] <;> repeat' split
+  all_goals rfl
+
+theorem runAct_tryOk {s : St} {a : Act} {s' : St} {o : List Obs} (h : runAct s a = some (s', o)) :
+    tryOk o = true := by
+  cases a with
+  | stim x =>
+    simp [runAct] at h
+    have := applyStim_noCalls s x
+    rw [h] at this; exact tryOk_of_noCalls this
+  | task t dec k =>
+    simp only [runAct] at h
+    have hm := mem_of_getElem? h
+    cases t with
+    | loop => exact tryOk_of_noCalls (stepLoop_noCalls hm)
+    | loopTimeout => exact tryOk_of_noCalls (stepLoopTimeout_noCalls hm)
+    | node => exact tryOk_stepNode hm
+    | dev d => exact tryOk_stepDev hm
+    | user j => exact tryOk_stepUser hm
+
+/-- lifting a trace property over `runActs` -/
+theorem runActs_trace (Q : List Obs → Prop) (hnil : Q []) (happ : ∀ a b, Q a → Q b → Q (a ++ b))
+    (P : St → Prop)
+    (hstep : ∀ s a s' o, P s → runAct s a = some (s', o) → Q o ∧ P s') :
+    ∀ (acts : List Act) (s s' : St) (tr : List Obs), P s → runActs s acts = some (s', tr) → Q tr ∧ P s' := by
+  intro acts
+  induction acts with
+  | nil => intro s s' tr hp h; simp [runActs] at h; obtain ⟨rfl, rfl⟩ := h; exact ⟨hnil, hp⟩
+  | cons a as ih =>
+    intro s s' tr hp h
+    simp only [runActs] at h
+    split at h
+    · simp at h
+    · rename_i s1 o1 h1
+      split at h
+      · simp at h
+      · rename_i s2 o2 h2
+        simp at h
+        obtain ⟨rfl, rfl⟩ := h
+        have ⟨q1, p1⟩ := hstep _ _ _ _ hp h1
+        have ⟨q2, p2⟩ := ih _ _ _ p1 h2
+        exact ⟨happ _ _ q1 q2, p2⟩
+
+theorem runActs_append (s : St) (a b : List Act) (s1 s2 : St) (t1 t2 : List Obs)
+    (h1 : runActs s a = some (s1, t1)) (h2 : runActs s1 b = some (s2, t2)) :
+    runActs s (a ++ b) = some (s2, t1 ++ t2) := by
+  induction a generalizing s t1 with
+  | nil => simp [runActs] at h1; obtain ⟨rfl, rfl⟩ := h1; simpa using h2
+  | cons x xs ih =>
+    simp only [runActs, List.cons_append] at h1 ⊢
+    split at h1
+    · simp at h1
+    · rename_i s3 o3 h3
+      split at h1
+      · simp at h1
+      · rename_i s4 o4 h4
+        simp at h1
+        obtain ⟨rfl, rfl⟩ := h1
+        simp [ih _ _ h4]
+
+theorem try_calls_never_wait (cd : Nat) (acts : List Act) (s : St) (tr : List Obs)
+    (h : runActs (init cd) acts = some (s, tr)) : tryOk tr = true :=
+  (runActs_trace (fun t => tryOk t = true) rfl (fun a b ha hb => by simp [tryOk_append, ha, hb])
+    (fun _ => True) (fun _ _ _ _ _ h => ⟨runAct_tryOk h, trivial⟩) acts _ _ _ trivial h).1
+
+/-! ### the shutdown invariant -/
+
+@[simp] def stopPhase : LoopPc → Bool
+  | .stopCheck | .stopPolling | .stopSendCs _ | .stopAwaitWill _ | .forceSendCs _ | .forceAwaitWill _
+  | .sendStopped | .done => true
+  | _ => false
+
+@[simp] def stopAw : LoopPc → Option Nat
+  | .stopSendCs o | .stopAwaitWill o | .forceSendCs o | .forceAwaitWill o => some o
+  | _ => none
+
+@[simp] def willAw : LoopPc → Option Nat
+  | .awaitWill o | .stopAwaitWill o | .forceAwaitWill o => some o
+  | _ => none
+
+@[simp] def timed : LoopPc → Bool
+  | .stopCheck | .stopPolling | .stopSendCs _ | .stopAwaitWill _ => true
+  | _ => false
+
+@[simp] def nodeBusy : NodePc → Bool
+  | .waitSub _ | .subDone _ | .birthStart _ _ | .waitNb _ _ _ | .nbDone _ _ _ => true
+  | _ => false
+
+@[simp] def nodeWait : NodePc → Option Nat
+  | .waitSub id | .waitNb id _ _ => some id
+  | _ => none
+
+@[simp] def pendOff : LoopPc → Option Nat
+  | .sendCs (.offline o) | .stopSendCs o | .forceSendCs o => some o
+  | _ => none
+
+structure Inv (s : St) : Prop where
+  stop_stopping : s.stop = true → s.stopping = true
+  uc_stopping : ∀ u ∈ s.ucalls, u.pc = .cancelStop → s.stopping = true
+  phase_stopping : stopPhase s.loop = true → s.stopping = true
+  fin_offline : (s.loop = .sendStopped ∨ s.loop = .done) → s.online = false
+  aw_offline : ∀ o, stopAw s.loop = some o → ∀ p ∈ s.oneshots, p.1 = o → s.online = false
+  os_fresh : ∀ p ∈ s.oneshots, p.1 < s.nextOneshot
+  busy_online : nodeBusy s.node = true → s.online = true
+  birthed_online : s.birthed = true → s.online = true
+  done_running : s.loop = .done → s.running = false
+  wait_lt : ∀ id, nodeWait s.node = some id → id < s.calls.length
+  dl_some : timed s.loop = true → s.stopDeadline.isSome = true
+  aw_reply : ∀ o, willAw s.loop = some o → s.cs = some (.offline o) ∨ ∃ p ∈ s.oneshots, p.1 = o
+  ndone : s.node = .done → s.loop = .done
+  cs_stopped : s.cs = some .stopped → s.loop = .done
+  sendcs_ns : s.loop ≠ .sendCs .stopped
+  cs_fresh : ∀ o, s.cs = some (.offline o) → o < s.nextOneshot
+  pend_fresh : ∀ o, pendOff s.loop = some o → o < s.nextOneshot
+
+theorem Inv_init (cd : Nat) : Inv (init cd) := by
+  constructor <;> simp [init]
+
+
+
+theorem reply?_mem {s : St} {o : Nat} {r : Option Nat} (h : reply? s o = some r) : (o, r) ∈ s.oneshots := by
+  simp only [reply?, Option.map_eq_some_iff] at h
+  obtain ⟨p, hp, rfl⟩ := h
+  have h1 := List.mem_of_find?_eq_some hp
+  have h2 := List.find?_some hp
+  simp at h2
+  cases p; simp_all
+
+theorem reply?_none {s : St} {o : Nat} (h : reply? s o = none) : ∀ r, (o, r) ∉ s.oneshots := by
+  simp only [reply?, Option.map_eq_none_iff] at h
+  intro r hr
+  have := List.find?_eq_none.1 h _ hr
+  simp at this
+
+set_option maxHeartbeats 800000 in
+theorem Inv_stepLoop {s : St} {r : St × List Obs} (hi : Inv s) (h : r ∈ stepLoop s) : Inv r.1 := by
+  cases s
+  rename_i online birthed seq bdseq running stopping epoch cooldown wall lastRebirthReq inbox will loop stopDeadline cs rebirthQ msgQ stop oneshots nextOneshot node nodeCbPark devCbPark devs ucalls calls
+  obtain ⟨h1, h2, h3, h4, h5, h6, h7, h8, h9, h10, h11, h12, h13, h14, h15, h16, h17⟩ := hi
+  cases loop
+  all_goals simp only [stepLoop, loopHandle, newOneshot] at h
+  all_goals simp at h1 h2 h3 h4 h5 h6 h7 h8 h9 h10 h11 h12 h13 h14 h15 h16 h17
+  all_goals repeat' split at h
+  all_goals (try simp at h)
+  all_goals (try (rcases h with h | h))
+  all_goals (try subst h)
+  all_goals (constructor <;> (try simp) <;> (try assumption))
+  all_goals (first | grind | (have := reply?_mem ‹_›; simp at this; grind))
+
+set_option maxHeartbeats 800000 in
+theorem Inv_stepLoopTimeout {s : St} {r : St × List Obs} (hi : Inv s) (h : r ∈ stepLoopTimeout s) : Inv r.1 := by
+  cases s
+  rename_i online birthed seq bdseq running stopping epoch cooldown wall lastRebirthReq inbox will loop stopDeadline cs rebirthQ msgQ stop oneshots nextOneshot node nodeCbPark devCbPark devs ucalls calls
+  obtain ⟨h1, h2, h3, h4, h5, h6, h7, h8, h9, h10, h11, h12, h13, h14, h15, h16, h17⟩ := hi
+  cases loop
+  all_goals simp only [stepLoopTimeout, newOneshot] at h
+  all_goals simp at h1 h2 h3 h4 h5 h6 h7 h8 h9 h10 h11 h12 h13 h14 h15 h16 h17
+  all_goals repeat' split at h
+  all_goals (try simp at h)
+  all_goals (try subst h)
+  all_goals (constructor <;> (try simp) <;> (try assumption))
+  all_goals (first | grind)
+
+set_option maxHeartbeats 800000 in
+theorem Inv_stepNode {s : St} {dec : Dec} {r : St × List Obs} (hi : Inv s) (h : r ∈ stepNode s dec) : Inv r.1 := by
+  cases s
+  rename_i online birthed seq bdseq running stopping epoch cooldown wall lastRebirthReq inbox will loop stopDeadline cs rebirthQ msgQ stop oneshots nextOneshot node nodeCbPark devCbPark devs ucalls calls
+  obtain ⟨h1, h2, h3, h4, h5, h6, h7, h8, h9, h10, h11, h12, h13, h14, h15, h16, h17⟩ := hi
+  cases node
+  all_goals simp only [stepNode, nodeBirthStart, handOver, callRes] at h
+  all_goals simp at h1 h2 h3 h4 h5 h6 h7 h8 h9 h10 h11 h12 h13 h14 h15 h16 h17
+  all_goals repeat' split at h
+  all_goals (try simp at h)
+  all_goals (try subst h)
+  all_goals (constructor <;> (try simp) <;> (try assumption))
+  all_goals (first | grind)
+
+
+/-- the part of the state the shutdown invariant talks about (everything device and user steps leave alone) -/
+structure Core where
+  online : Bool
+  birthed : Bool
+  running : Bool
+  loop : LoopPc
+  stopDeadline : Option Nat
+  cs : Option CS
+  oneshots : List (Nat × Option Nat)
+  nextOneshot : Nat
+  node : NodePc
+
+def core (s : St) : Core :=
+  ⟨s.online, s.birthed, s.running, s.loop, s.stopDeadline, s.cs, s.oneshots, s.nextOneshot, s.node⟩
+
+theorem devBirth_core (s : St) (x : Dev) (bt : BT) (req : Option Nat) (dec : Dec) :
+    core (devBirth s x bt req dec).1 = core s ∧ (devBirth s x bt req dec).1.stop = s.stop ∧
+    (devBirth s x bt req dec).1.stopping = s.stopping ∧ (devBirth s x bt req dec).1.ucalls = s.ucalls ∧
+    s.calls.length ≤ (devBirth s x bt req dec).1.calls.length := by
+  simp only [devBirth, handOver, callRes]
+  repeat' split
+  all_goals (try (obtain ⟨rfl, _, _⟩ := nextSeqIn_ok ‹_›))
+  all_goals simp [core]
+
+theorem devDeath_core (s : St) (x : Dev) (a b : Bool) (dec : Dec) :
+    core (devDeath s x a b dec).1 = core s ∧ (devDeath s x a b dec).1.stop = s.stop ∧
+    (devDeath s x a b dec).1.stopping = s.stopping ∧ (devDeath s x a b dec).1.ucalls = s.ucalls ∧
+    s.calls.length ≤ (devDeath s x a b dec).1.calls.length := by
+  simp only [devDeath, handOver, callRes]
+  repeat' split
+  all_goals (try (obtain ⟨rfl, _, _⟩ := nextSeqIn_ok ‹_›))
+  all_goals simp [core]
+
+theorem stepDev_core {s : St} {u : Nat} {dec : Dec} {r : St × List Obs} (h : r ∈ stepDev s u dec) :
+    core r.1 = core s ∧ r.1.stop = s.stop ∧ r.1.stopping = s.stopping ∧ r.1.ucalls = s.ucalls ∧
+    s.calls.length ≤ r.1.calls.length := by
+  simp only [stepDev] at h
+  repeat' split at h
+  all_goals (try simp at h)
+  all_goals (try subst h)
+  all_goals (first | exact devBirth_core .. | exact devDeath_core .. | simp [core])
+
+theorem mem_setUCall {u v : UCall} {l : List UCall} (h : v ∈ setUCall u l) : v ∈ l ∨ v = u := by
+  induction l with
+  | nil => simp [setUCall] at h
+  | cons w t ih =>
+    simp only [setUCall] at h
+    split at h
+    · simp at h; rcases h with h | h <;> simp [h]
+    · simp at h; rcases h with h | h
+      · simp [h]
+      · rcases ih h with h | h <;> simp [h]
+
+theorem gate_ok {s : St} {t : PubTarget} {s1 : St} {k : Nat} {fl : Bool}
+    (h : (match t with
+      | .node => (nextSeq s).map fun (s, k) => (s, k, false)
+      | .dev d =>
+        match findDev d s.devs with
+        | some x => if !x.flag then .error .unbirthed else (nextSeqIn s (some x.epoch)).map fun (s, k) => (s, k, true)
+        | none => .error .unbirthed : Except URes (St × Nat × Bool)) = .ok (s1, k, fl)) :
+    s1 = { s with seq := k } ∧ s.online = true ∧ s.birthed = true := by
+  cases t with
+  | node =>
+    simp only [nextSeq] at h
+    cases hn : nextSeqIn s none with
+    | error e => simp [hn, Except.map] at h
+    | ok v =>
+      simp [hn, Except.map] at h
+      obtain ⟨rfl, rfl, _⟩ := h
+      exact nextSeqIn_ok hn
+  | dev d =>
+    simp only at h
+    split at h
+    · split at h
+      · simp at h
+      · rename_i x _ _
+        cases hn : nextSeqIn s (some x.epoch) with
+        | error e => simp [hn, Except.map] at h
+        | ok v =>
+          simp [hn, Except.map] at h
+          obtain ⟨rfl, rfl, _⟩ := h
+          exact nextSeqIn_ok hn
+    · simp at h
+
+theorem stepUser_core {s : St} {j : Nat} {dec : Dec} {r : St × List Obs} (h : r ∈ stepUser s j dec) :
+    core r.1 = core s ∧ (s.stopping = true → r.1.stopping = true) ∧
+    (r.1.stop = true → s.stop = true ∨ ∃ u ∈ s.ucalls, u.pc = .cancelStop) ∧
+    (∀ v ∈ r.1.ucalls, v.pc = .cancelStop → v ∈ s.ucalls ∨ r.1.stopping = true) ∧
+    s.calls.length ≤ r.1.calls.length := by
+  simp only [stepUser, handOver, callRes] at h
+  repeat' split at h
+  all_goals (try (first | (obtain ⟨rfl, _, _⟩ := gate_ok (t := .node) ‹_›) | (obtain ⟨rfl, _, _⟩ := gate_ok (t := .dev _) ‹_›)))
+  all_goals (try simp at h)
+  all_goals (try subst h)
+  all_goals (simp [core])
+  all_goals (have hmem := List.mem_of_find?_eq_some ‹List.find? _ s.ucalls = some _›)
+  all_goals (first | grind [mem_setUCall])
+
+theorem applyStim_core (s : St) (x : Stim) :
+    core (applyStim s x).1 = core s ∧ (s.stopping = true → (applyStim s x).1.stopping = true) ∧
+    ((applyStim s x).1.stop = true → s.stop = true ∨ ∃ u ∈ s.ucalls, u.pc = .cancelStop) ∧
+    (∀ v ∈ (applyStim s x).1.ucalls, v.pc = .cancelStop → v ∈ s.ucalls ∨ (applyStim s x).1.stopping = true) ∧
+    s.calls.length ≤ (applyStim s x).1.calls.length := by
+  cases x <;> simp only [applyStim] <;> repeat' split
+  all_goals (simp [core])
+  all_goals grind
+
+theorem Inv_transfer {s s' : St} (hc : core s' = core s) (hst : s.stopping = true → s'.stopping = true)
+    (hstop : s'.stop = true → s.stop = true ∨ ∃ u ∈ s.ucalls, u.pc = .cancelStop)
+    (huc : ∀ v ∈ s'.ucalls, v.pc = .cancelStop → v ∈ s.ucalls ∨ s'.stopping = true)
+    (hcalls : s.calls.length ≤ s'.calls.length) (hi : Inv s) : Inv s' := by
+  cases s; cases s'
+  simp only [core, Core.mk.injEq] at hc
+  obtain ⟨rfl, rfl, rfl, rfl, rfl, rfl, rfl, rfl, rfl⟩ := hc
+  obtain ⟨h1, h2, h3, h4, h5, h6, h7, h8, h9, h10, h11, h12, h13, h14, h15, h16, h17⟩ := hi
+  simp only [] at *
+  constructor <;> (try simp only []) <;> (try assumption)
+  all_goals grind
+
+
+theorem Inv_runAct {s : St} {a : Act} {s' : St} {o : List Obs} (hi : Inv s) (h : runAct s a = some (s', o)) :
+    Inv s' := by
+  cases a with
+  | stim x =>
+    simp [runAct] at h
+    have := applyStim_core s x
+    rw [h] at this
+    obtain ⟨a, b, c, d, e⟩ := this
+    exact Inv_transfer a b c d e hi
+  | task t dec k =>
+    simp only [runAct] at h
+    have hm := mem_of_getElem? h
+    cases t with
+    | loop => exact Inv_stepLoop hi hm
+    | loopTimeout => exact Inv_stepLoopTimeout hi hm
+    | node => exact Inv_stepNode hi hm
+    | dev d =>
+      obtain ⟨a, b, c, d, e⟩ := stepDev_core hm
+      exact Inv_transfer a (by rw [c]; exact id) (by rw [b]; exact Or.inl) (by rw [d]; exact fun _ h _ => Or.inl h) e hi
+    | user j =>
+      obtain ⟨a, b, c, d, e⟩ := stepUser_core hm
+      exact Inv_transfer a b c d e hi
+
+theorem Inv_runActs {acts : List Act} {s s' : St} {tr : List Obs} (hi : Inv s) (h : runActs s acts = some (s', tr)) :
+    Inv s' :=
+  (runActs_trace (fun _ => True) trivial (fun _ _ _ _ => trivial) Inv
+    (fun _ _ _ _ hi h => ⟨trivial, Inv_runAct hi h⟩) acts _ _ _ hi h).2
+
+theorem Inv_reach {cd : Nat} {acts : List Act} {s : St} {tr : List Obs}
+    (h : runActs (init cd) acts = some (s, tr)) : Inv s := Inv_runActs (Inv_init cd) h
+
+theorem stopped_is_offline (cd : Nat) (acts : List Act) (s : St) (tr : List Obs)
+    (h : runActs (init cd) acts = some (s, tr)) (hd : s.loop = .done) :
+    s.online = false ∧ s.birthed = false ∧ s.running = false := by
+  have hi := Inv_reach h
+  have h1 := hi.fin_offline (Or.inr hd)
+  have h2 := hi.birthed_online
+  have h3 := hi.done_running hd
+  refine ⟨h1, ?_, h3⟩
+  cases hb : s.birthed
+  · rfl
+  · simp [h2 hb] at h1
+
+/-! ### after the run loop has returned -/
+
+def onlyDisc : List Obs → Bool
+  | [] => true
+  | .call _ k _ _ _ _ _ :: t => k == .disconnect && onlyDisc t
+  | _ :: t => onlyDisc t
+
+theorem onlyDisc_append (a b : List Obs) : onlyDisc (a ++ b) = (onlyDisc a && onlyDisc b) := by
+  induction a with
+  | nil => simp [onlyDisc]
+  | cons x t ih => cases x <;> simp [onlyDisc, ih, Bool.and_assoc]
+
+theorem onlyDisc_of_noCalls {a : List Obs} (h : noCalls a = true) : onlyDisc a = true := by
+  induction a with
+  | nil => simp [onlyDisc]
+  | cons x t ih => cases x <;> simp_all [onlyDisc, noCalls]
+
+theorem onlyDisc_spec {tr : List Obs} (h : onlyDisc tr = true) :
+    ∀ o ∈ tr, ∀ id k dv sq bd t dc, o = Obs.call id k dv sq bd t dc → k = .disconnect := by
+  induction tr with
+  | nil => simp
+  | cons x t ih =>
+    intro o ho id k dv sq bd t' dc he
+    simp at ho
+    rcases ho with rfl | ho
+    · subst he; simp [onlyDisc] at h; exact h.1
+    · refine ih ?_ o ho id k dv sq bd t' dc he
+      cases x <;> simp_all [onlyDisc]
+
+/-- the state after `run` has returned -/
+structure Stopped (s : St) : Prop where
+  loop : s.loop = .done
+  online : s.online = false
+  birthed : s.birthed = false
+  running : s.running = false
+  stopping : s.stopping = true
+  node : nodeBusy s.node = false
+
+theorem Stopped_of_Inv {s : St} (hi : Inv s) (hd : s.loop = .done) : Stopped s := by
+  have h1 := hi.fin_offline (Or.inr hd)
+  refine ⟨hd, h1, ?_, hi.done_running hd, hi.phase_stopping (by simp [hd]), ?_⟩
+  · cases hb : s.birthed
+    · rfl
+    · simp [hi.birthed_online hb] at h1
+  · cases hb : nodeBusy s.node
+    · rfl
+    · simp [hi.busy_online hb] at h1
+
+theorem stepNode_stopped {s : St} {dec : Dec} {r : St × List Obs} (hs : Stopped s) (h : r ∈ stepNode s dec) :
+    noCalls r.2 = true ∧ r.1.loop = .done := by
+  cases s
+  obtain ⟨h1, h2, h3, h4, h5, h6⟩ := hs
+  simp only [] at h1 h2 h3 h4 h5 h6
+  subst h1 h2 h3 h4 h5
+  rename_i node _ _ _ _ _
+  cases node
+  all_goals simp at h6
+  all_goals simp only [stepNode, handOver, callRes] at h
+  all_goals repeat' split at h
+  all_goals (try simp at h)
+  all_goals (try subst h)
+  all_goals (first | exact ⟨rfl, rfl⟩)
+
+theorem devBirth_offline {s : St} (x : Dev) (bt : BT) (req : Option Nat) (dec : Dec) (ho : s.online = false) :
+    devBirth s x bt req dec = (s, []) := by
+  simp only [devBirth, nextSeqIn_offline ho]
+  repeat' split
+  all_goals rfl
+
+theorem devDeath_offline {s : St} (x : Dev) (a b : Bool) (dec : Dec) (ho : s.online = false) :
+    noCalls (devDeath s x a b dec).2 = true := by
+  simp only [devDeath, nextSeqIn_offline ho]
+  repeat' split
+  all_goals rfl
+
+theorem stepDev_offline {s : St} {u : Nat} {dec : Dec} {r : St × List Obs} (ho : s.online = false) (h : r ∈ stepDev s u dec) :
+    noCalls r.2 = true := by
+  simp only [stepDev] at h
+  repeat' split at h
+  all_goals (try simp at h)
+  all_goals (try subst h)
+  all_goals (first | rfl | (rw [devBirth_offline _ _ _ _ (by exact ho)]; rfl) | exact devDeath_offline _ _ _ _ (by exact ho))
+
+theorem stepUser_stopped {s : St} {j : Nat} {dec : Dec} {r : St × List Obs} (hs : Stopped s) (h : r ∈ stepUser s j dec) :
+    onlyDisc r.2 = true ∧ r.1.loop = .done := by
+  obtain ⟨h1, h2, h3, h4, h5, h6⟩ := hs
+  simp only [stepUser, handOver, callRes, h4, h1] at h
+  repeat' split at h
+  all_goals (try (first | (obtain ⟨_, ho, _⟩ := gate_ok (t := .node) ‹_›; simp [h2] at ho) | (obtain ⟨_, ho, _⟩ := gate_ok (t := .dev _) ‹_›; simp [h2] at ho)))
+  all_goals (try simp at h)
+  all_goals (try subst h)
+  all_goals (first | contradiction | exact ⟨rfl, rfl⟩ | exact ⟨rfl, h1⟩)
+
+theorem core_loop {s s' : St} (h : core s' = core s) : s'.loop = s.loop := congrArg Core.loop h
+
+theorem runAct_stopped {s : St} {a : Act} {s' : St} {o : List Obs} (hp : Inv s ∧ s.loop = .done)
+    (h : runAct s a = some (s', o)) : onlyDisc o = true ∧ (Inv s' ∧ s'.loop = .done) := by
+  obtain ⟨hi, hd⟩ := hp
+  have hi' := Inv_runAct hi h
+  have hs := Stopped_of_Inv hi hd
+  refine ⟨?_, hi', ?_⟩
+  · cases a with
+    | stim x =>
+      simp [runAct] at h
+      have := applyStim_noCalls s x
+      rw [h] at this
+      exact onlyDisc_of_noCalls this
+    | task t dec k =>
+      simp only [runAct] at h
+      have hm := mem_of_getElem? h
+      cases t with
+      | loop => exact onlyDisc_of_noCalls (stepLoop_noCalls hm)
+      | loopTimeout => exact onlyDisc_of_noCalls (stepLoopTimeout_noCalls hm)
+      | node => exact onlyDisc_of_noCalls (stepNode_stopped hs hm).1
+      | dev d => exact onlyDisc_of_noCalls (stepDev_offline hs.online hm)
+      | user j => exact (stepUser_stopped hs hm).1
+  · cases a with
+    | stim x =>
+      simp [runAct] at h
+      have := (applyStim_core s x).1
+      rw [h] at this
+      rw [core_loop this]; exact hd
+    | task t dec k =>
+      simp only [runAct] at h
+      have hm := mem_of_getElem? h
+      cases t with
+      | loop => simp [step, stepLoop, hd] at hm
+      | loopTimeout =>
+        simp only [step, stepLoopTimeout, hd] at hm
+        repeat' split at hm
+        all_goals simp at hm
+      | node => exact (stepNode_stopped hs hm).2
+      | dev d => rw [core_loop (stepDev_core hm).1]; exact hd
+      | user j => exact (stepUser_stopped hs hm).2
+
+theorem nothing_after_stop (cd : Nat) (acts more : List Act) (s s' : St) (tr tr' : List Obs)
+    (h : runActs (init cd) acts = some (s, tr)) (hd : s.loop = .done)
+    (h' : runActs s more = some (s', tr')) :
+    (∀ o ∈ tr', ∀ id k dv sq bd t dc, o = Obs.call id k dv sq bd t dc → k = .disconnect) ∧
+    s'.online = false ∧ s'.birthed = false := by
+  have hi := Inv_reach h
+  have := runActs_trace (fun t => onlyDisc t = true) rfl (fun a b ha hb => by simp [onlyDisc_append, ha, hb])
+    (fun s => Inv s ∧ s.loop = .done) (fun _ _ _ _ hp h => runAct_stopped hp h) more _ _ _ ⟨hi, hd⟩ h'
+  obtain ⟨h1, h2, h3⟩ := this
+  have hs := Stopped_of_Inv h2 h3
+  exact ⟨onlyDisc_spec h1, hs.online, hs.birthed⟩
+
+/-! ### termination -/
+
+@[simp] def mainPc : LoopPc → Bool
+  | .sel | .polling | .sendCs _ | .awaitWill _ => true
+  | _ => false
+
+@[simp] def phase : LoopPc → Nat
+  | .done => 0 | .sendStopped => 1 | .forceAwaitWill _ => 2 | .forceSendCs _ => 3
+  | .stopCheck | .stopPolling | .stopSendCs _ | .stopAwaitWill _ => 4
+  | .sel | .polling => 5 | .awaitWill _ => 6 | .sendCs _ => 7 | .start => 8
+
+@[simp] def nodeRank : NodePc → Nat
+  | .idle => 0 | .nbDone _ _ _ => 1 | .waitNb _ _ _ => 2 | .birthStart _ _ => 2 | .subDone _ => 3
+  | .waitSub _ => 4 | .inCb _ => 3 | .done => 0
+
+def nodeM (s : St) : Nat := (if s.cs.isSome then 10 else 0) + nodeRank s.node
+
+def adv (s : St) : Nat :=
+  match s.stopDeadline with
+  | some dl => if dl ≤ s.wall then 0 else 1
+  | none => 0
+
+def measure (s : St) : Nat := phase s.loop * 100 + adv s * 50 + nodeM s
+
+structure Extra (s : St) : Prop where
+  resolved : ∀ c ∈ s.calls, c.res.isSome = true
+  nocb : s.nodeCbPark = false
+  stop : mainPc s.loop = true → s.stop = true
+  started : s.loop ≠ .start
+
+structure NodeStep (s s' : St) : Prop where
+  extra : Extra s'
+  loop : s'.loop = s.loop
+  dl : s'.stopDeadline = s.stopDeadline
+  wall : s'.wall = s.wall
+  dec : nodeM s' < nodeM s
+
+theorem callRes_some {s : St} {id : Nat} (h1 : ∀ c ∈ s.calls, c.res.isSome = true) (hlt : id < s.calls.length) :
+    ∃ ok, callRes s id = some ok := by
+  have hm : s.calls[id] ∈ s.calls := List.getElem_mem hlt
+  have := h1 _ hm
+  simp only [callRes, List.getElem?_eq_getElem hlt, Option.bind_some]
+  exact Option.isSome_iff_exists.1 this
+
+theorem NodeStep.mk' {s s' : St} (h1 : ∀ c ∈ s'.calls, c.res.isSome = true) (h2 : s'.nodeCbPark = false)
+    (h3 : s'.loop = s.loop) (h4 : s'.stop = s.stop) (h5 : s'.stopDeadline = s.stopDeadline) (h6 : s'.wall = s.wall)
+    (h7 : nodeM s' < nodeM s) (he : Extra s) : NodeStep s s' :=
+  ⟨⟨h1, h2, by rw [h3, h4]; exact he.stop, by rw [h3]; exact he.started⟩, h3, h5, h6, h7⟩
+
+set_option maxHeartbeats 800000 in
+theorem node_progress {s : St} (hi : Inv s) (he : Extra s) (hcs : s.cs.isSome = true) (hnd : s.loop ≠ .done) :
+    ∃ r ∈ stepNode s .rej, NodeStep s r.1 := by
+  have hwait := hi.wait_lt
+  have hndone := hi.ndone
+  have hcsst := hi.cs_stopped
+  clear hi
+  have e1 := he.resolved
+  have e2 := he.nocb
+  cases hn : s.node with
+  | idle =>
+    cases hc : s.cs with
+    | none => simp [hc] at hcs
+    | some m =>
+      cases m with
+      | online =>
+        simp only [stepNode, hn, hc, handOver, callRes]
+        repeat' split
+        all_goals simp
+        all_goals (apply NodeStep.mk' (he := he) <;> simp_all [nodeM] <;> (try grind))
+      | offline o =>
+        simp only [stepNode, hn, hc]
+        repeat' split
+        all_goals simp
+        all_goals (apply NodeStep.mk' (he := he) <;> simp_all [nodeM] <;> (try grind))
+      | stopped => exact absurd (hcsst hc) hnd
+  | waitSub id =>
+    obtain ⟨ok, hok⟩ := callRes_some e1 (hwait id (by simp [hn]))
+    simp only [stepNode, hn, hok]
+    simp
+    apply NodeStep.mk' (he := he) <;> simp_all [nodeM] <;> (try grind)
+  | subDone ok =>
+    simp only [stepNode, hn]
+    split
+    all_goals simp
+    all_goals (apply NodeStep.mk' (he := he) <;> simp_all [nodeM] <;> (try grind))
+  | birthStart bt f =>
+    simp [stepNode, hn, nodeBirthStart, handOver, callRes]
+    apply NodeStep.mk' (he := he) <;> simp_all [nodeM] <;> (try grind)
+  | waitNb id bt f =>
+    obtain ⟨ok, hok⟩ := callRes_some e1 (hwait id (by simp [hn]))
+    simp only [stepNode, hn, hok]
+    simp
+    apply NodeStep.mk' (he := he) <;> simp_all [nodeM] <;> (try grind)
+  | nbDone ok bt f =>
+    cases ok <;> cases f <;> simp [stepNode, hn]
+    all_goals (apply NodeStep.mk' (he := he) <;> simp_all [nodeM] <;> (try grind))
+  | inCb rb =>
+    simp only [stepNode, hn, e2]
+    repeat' split
+    all_goals (try contradiction)
+    all_goals simp
+    all_goals (apply NodeStep.mk' (he := he) <;> simp_all [nodeM] <;> (try grind))
+  | done => exact absurd (hndone hn) hnd
+
+def Allowed (a : Act) : Prop := (∃ t dec k, a = Act.task t dec k) ∨ (∃ ms, a = Act.stim (.advance ms))
+
+theorem nodeM_le (s : St) : nodeM s ≤ 14 := by
+  unfold nodeM
+  cases s.node <;> split <;> simp
+
+theorem adv_le (s : St) : adv s ≤ 1 := by
+  unfold adv
+  repeat' split
+  all_goals simp
+
+theorem measure_lt_of_phase {s s' : St} (h : phase s'.loop < phase s.loop) : measure s' < measure s := by
+  have := nodeM_le s'
+  have := adv_le s'
+  unfold measure
+  omega
+
+/-- a step of the result type of `progress` -/
+def Progress (s : St) : Prop :=
+  ∃ a s' o, Allowed a ∧ runAct s a = some (s', o) ∧ Extra s' ∧ measure s' < measure s
+
+theorem progress_node {s : St} (hi : Inv s) (he : Extra s) (hcs : s.cs.isSome = true) (hnd : s.loop ≠ .done) :
+    Progress s := by
+  obtain ⟨r, hr, hs⟩ := node_progress hi he hcs hnd
+  obtain ⟨k, hk⟩ := List.getElem?_of_mem hr
+  refine ⟨.task .node .rej k, r.1, r.2, Or.inl ⟨_, _, _, rfl⟩, by simpa [runAct, step] using hk, hs.extra, ?_⟩
+  have := hs.dec
+  simp only [measure, adv, hs.loop, hs.dl, hs.wall]
+  omega
+
+/-- a loop step that lowers the phase -/
+theorem progress_loop {s : St} (he : Extra s) {r : St × List Obs} {k : Nat} (hk : (stepLoop s)[k]? = some r)
+    (hcalls : r.1.calls = s.calls) (hcb : r.1.nodeCbPark = s.nodeCbPark)
+    (hstop : mainPc r.1.loop = true → r.1.stop = true) (hstart : r.1.loop ≠ .start)
+    (hph : phase r.1.loop < phase s.loop) : Progress s :=
+  ⟨.task .loop .acc k, r.1, r.2, Or.inl ⟨_, _, _, rfl⟩, by simpa [runAct, step] using hk,
+    ⟨by rw [hcalls]; exact he.resolved, by rw [hcb]; exact he.nocb, hstop, hstart⟩, measure_lt_of_phase hph⟩
+
+theorem progress_timed {s : St} (hi : Inv s) (he : Extra s) (ht : timed s.loop = true) : Progress s := by
+  have hdl := hi.dl_some ht
+  obtain ⟨dl, hdl⟩ := Option.isSome_iff_exists.1 hdl
+  by_cases hle : dl ≤ s.wall
+  · -- the timer fires
+    have key : ∃ r, (stepLoopTimeout s)[0]? = some r ∧ r.1.calls = s.calls ∧ r.1.nodeCbPark = s.nodeCbPark ∧
+        mainPc r.1.loop = false ∧ r.1.loop ≠ .start ∧ phase r.1.loop < phase s.loop := by
+      cases hl : s.loop <;> simp [hl] at ht
+      all_goals cases hc : s.cs
+      all_goals simp [stepLoopTimeout, hdl, hle, hl, newOneshot, hc]
+    obtain ⟨r, hr, h1, h2, h3, h4, h5⟩ := key
+    exact ⟨.task .loopTimeout .acc 0, r.1, r.2, Or.inl ⟨_, _, _, rfl⟩, by simpa [runAct, step] using hr,
+      ⟨by rw [h1]; exact he.resolved, by rw [h2]; exact he.nocb, fun h => absurd h (by rw [h3]; simp), h4⟩, measure_lt_of_phase h5⟩
+  · -- let time pass
+    refine ⟨.stim (.advance (dl - s.wall)), _, _, Or.inr ⟨_, rfl⟩, rfl, ?_, ?_⟩
+    · exact ⟨he.resolved, he.nocb, he.stop, he.started⟩
+    · simp only [measure, adv, hdl, nodeM]
+      have : dl ≤ s.wall + (dl - s.wall) := by omega
+      simp [this, hle]
+
+theorem reply?_isSome_of_mem {s : St} {o : Nat} (h : ∃ p ∈ s.oneshots, p.1 = o) : ∃ r, reply? s o = some r := by
+  cases hr : reply? s o with
+  | some r => exact ⟨r, rfl⟩
+  | none =>
+    obtain ⟨p, hp, rfl⟩ := h
+    exact absurd hp (reply?_none hr p.2)
+
+/-- awaiting a will reply: either it is there (loop step) or the node still has to consume the message -/
+theorem will_cases {s : St} (hi : Inv s) {o : Nat} (hw : willAw s.loop = some o) :
+    (∃ r, reply? s o = some r) ∨ s.cs.isSome = true := by
+  rcases hi.aw_reply o hw with h | h
+  · right; simp [h]
+  · left; exact reply?_isSome_of_mem h
+
+theorem progress {s : St} (hi : Inv s) (he : Extra s) (hnd : s.loop ≠ .done) : Progress s := by
+  cases hl : s.loop with
+  | start => exact absurd hl he.started
+  | sel =>
+    have hs := he.stop (by simp [hl])
+    exact progress_loop he (k := 0) (r := ({ s with stop := false, loop := .stopCheck, stopDeadline := some (s.wall + 1000) }, []))
+      (by simp [stepLoop, hl, hs]) rfl rfl (by simp) (by simp) (by simp [hl])
+  | polling =>
+    have hs := he.stop (by simp [hl])
+    exact progress_loop he (k := 0) (r := ({ s with stop := false, loop := .stopCheck, stopDeadline := some (s.wall + 1000) }, []))
+      (by simp [stepLoop, hl, hs]) rfl rfl (by simp) (by simp) (by simp [hl])
+  | sendCs m =>
+    have hs := he.stop (by simp [hl])
+    cases hc : s.cs with
+    | some _ => exact progress_node hi he (by simp [hc]) hnd
+    | none =>
+      cases m with
+      | online =>
+        exact progress_loop he (k := 0) (r := ({ s with cs := some .online, loop := .sel }, []))
+          (by simp [stepLoop, hl, hc]) rfl rfl (by intro _; exact hs) (by simp) (by simp [hl])
+      | offline o =>
+        exact progress_loop he (k := 0) (r := ({ s with cs := some (.offline o), loop := .awaitWill o }, []))
+          (by simp [stepLoop, hl, hc]) rfl rfl (by intro _; exact hs) (by simp) (by simp [hl])
+      | stopped => exact absurd hl hi.sendcs_ns
+  | awaitWill o =>
+    have hs := he.stop (by simp [hl])
+    rcases will_cases hi (o := o) (by simp [hl]) with ⟨r, hr⟩ | hc
+    · cases r with
+      | some bd =>
+        exact progress_loop he (k := 0) (r := ({ s with will := some bd, loop := .sel }, [.will bd]))
+          (by simp [stepLoop, hl, hr]) rfl rfl (by intro _; exact hs) (by simp) (by simp [hl])
+      | none =>
+        exact progress_loop he (k := 0) (r := ({ s with loop := .sel }, []))
+          (by simp [stepLoop, hl, hr]) rfl rfl (by intro _; exact hs) (by simp) (by simp [hl])
+    · exact progress_node hi he hc hnd
+  | stopCheck => exact progress_timed hi he (by simp [hl])
+  | stopPolling => exact progress_timed hi he (by simp [hl])
+  | stopSendCs o => exact progress_timed hi he (by simp [hl])
+  | stopAwaitWill o => exact progress_timed hi he (by simp [hl])
+  | forceSendCs o =>
+    cases hc : s.cs with
+    | some _ => exact progress_node hi he (by simp [hc]) hnd
+    | none =>
+      exact progress_loop he (k := 0) (r := ({ s with cs := some (.offline o), loop := .forceAwaitWill o }, []))
+        (by simp [stepLoop, hl, hc]) rfl rfl (by simp) (by simp) (by simp [hl])
+  | forceAwaitWill o =>
+    rcases will_cases hi (o := o) (by simp [hl]) with ⟨r, hr⟩ | hc
+    · cases r with
+      | some bd =>
+        exact progress_loop he (k := 0) (r := ({ s with will := some bd, loop := .sendStopped }, [.will bd]))
+          (by simp [stepLoop, hl, hr]) rfl rfl (by simp) (by simp) (by simp [hl])
+      | none =>
+        exact progress_loop he (k := 0) (r := ({ s with loop := .sendStopped }, []))
+          (by simp [stepLoop, hl, hr]) rfl rfl (by simp) (by simp) (by simp [hl])
+    · exact progress_node hi he hc hnd
+  | sendStopped =>
+    cases hc : s.cs with
+    | some _ => exact progress_node hi he (by simp [hc]) hnd
+    | none =>
+      exact progress_loop he (k := 0) (r := ({ s with cs := some .stopped, running := false, loop := .done }, [.runReturned]))
+        (by simp [stepLoop, hl, hc]) rfl rfl (by simp) (by simp) (by simp [hl])
+  | done => exact absurd hl hnd
+
+theorem terminate (n : Nat) : ∀ s : St, measure s ≤ n → Inv s → Extra s →
+    ∃ sched s' tr', (∀ a ∈ sched, Allowed a) ∧ runActs s sched = some (s', tr') ∧ s'.loop = .done := by
+  induction n with
+  | zero =>
+    intro s hm hi he
+    by_cases hd : s.loop = .done
+    · exact ⟨[], s, [], by simp, rfl, hd⟩
+    · obtain ⟨a, s1, o, _, _, _, hlt⟩ := progress hi he hd
+      omega
+  | succ n ih =>
+    intro s hm hi he
+    by_cases hd : s.loop = .done
+    · exact ⟨[], s, [], by simp, rfl, hd⟩
+    · obtain ⟨a, s1, o, ha, hr, he1, hlt⟩ := progress hi he hd
+      obtain ⟨sched, s2, tr2, hall, hrun, hd2⟩ := ih s1 (by omega) (Inv_runAct hi hr) he1
+      refine ⟨a :: sched, s2, o ++ tr2, ?_, ?_, hd2⟩
+      · intro b hb
+        simp at hb
+        rcases hb with rfl | hb
+        · exact ha
+        · exact hall b hb
+      · simp [runActs, hr, hrun]
+
+theorem termination_partial (cd : Nat) (acts : List Act) (s : St) (tr : List Obs)
+    (h : runActs (init cd) acts = some (s, tr))
+    (hstop : s.stop = true ∨ s.loop = .stopCheck ∨ s.loop = .stopPolling ∨ (∃ o, s.loop = .stopSendCs o) ∨
+             (∃ o, s.loop = .stopAwaitWill o) ∨ (∃ o, s.loop = .forceSendCs o) ∨ (∃ o, s.loop = .forceAwaitWill o) ∨
+             s.loop = .sendStopped)
+    (hstarted : s.loop ≠ .start)
+    (hnopark : ∀ c ∈ s.calls, c.res.isSome = true) (hcb : s.nodeCbPark = false ∧ s.devCbPark = [])
+    (_htimer : ∀ dl, s.stopDeadline = some dl → dl ≤ s.wall) :
+    ∃ sched s' tr', (∀ a ∈ sched, (∃ t dec k, a = Act.task t dec k) ∨ (∃ ms, a = Act.stim (.advance ms))) ∧
+      runActs s sched = some (s', tr') ∧ s'.loop = .done := by
+  have he : Extra s := by
+    refine ⟨hnopark, hcb.1, ?_, hstarted⟩
+    intro hm
+    rcases hstop with h | h | h | ⟨o, h⟩ | ⟨o, h⟩ | ⟨o, h⟩ | ⟨o, h⟩ | h
+    · exact h
+    all_goals (rw [h] at hm; simp at hm)
+  exact terminate _ s (Nat.le_refl _) (Inv_reach h) he
 
 end Srad.Eon.P20
